@@ -448,6 +448,23 @@ theorem foldlM_expect_unloc {β} (g : β → Num → Except Err β) (args : List
     | nil => rfl
     | cons y more => simp only [List.map_cons, expectNumber_unloc, foldNum_unloc]
 
+@[simp] theorem exactPrefix_unloc : ∀ (args : List Value),
+    exactPrefix (args.map Value.unloc) = exactPrefix args
+  | [] => rfl
+  | v :: vs => by
+    cases v <;> try rfl
+    next n =>
+      simp only [List.map_cons, Value.unloc_num, exactPrefix]
+      rw [exactPrefix_unloc vs]
+
+@[simp] theorem divArgs_unloc (args : List Value) :
+    divArgs (args.map Value.unloc) = divArgs args := by
+  unfold divArgs
+  rw [exactPrefix_unloc, subDiv_unloc]
+  cases args with
+  | nil => rfl
+  | cons x rest => cases rest <;> rfl
+
 theorem cmpNum_go_unloc (op) (vs : List Value) : ∀ last acc,
     cmpNum.go op last acc (vs.map Value.unloc) = cmpNum.go op last acc vs := by
   induction vs with
@@ -665,9 +682,9 @@ theorem applyPure_unloc (σ : Store) (b : Builtin) (args : List Value) :
     | nil => rfl
     | cons x rest => cases x <;> rfl
   all_goals first
-    | (simp only [applyPure, realFn, realFn2, num1_unloc, num2_unloc, foldNum_unloc, subDiv_unloc, cmpNum_unloc,
+    | (simp only [applyPure, realFn, realFn2, num1_unloc, num2_unloc, foldNum_unloc, subDiv_unloc, divArgs_unloc, cmpNum_unloc,
         cmpBool_unloc, extremum_unloc]; done)
-    | (simp only [applyPure, realFn, realFn2, num1_unloc, num2_unloc, foldNum_unloc, subDiv_unloc, cmpNum_unloc,
+    | (simp only [applyPure, realFn, realFn2, num1_unloc, num2_unloc, foldNum_unloc, subDiv_unloc, divArgs_unloc, cmpNum_unloc,
         cmpBool_unloc, extremum_unloc]
        first
         | rfl
